@@ -23,6 +23,9 @@ def parse(prog):
       if k == 'E':
         sub, again = body()
         items.append(('E', op['cl'], op['n'], sub, again, op.get('lift', 'none')))
+      elif k == 'G':
+        sub, _ = body()
+        items.append(('G', op['lift'], sub))
       elif k == 'P':
         items.append(('P', op['n']))
       elif k in ('V', 'W', 'M'):
@@ -90,6 +93,12 @@ def run_items(mdl, items):
       kd = jnp.asarray(jax.random.key_data(key), jnp.uint32).reshape(-1)[:2]
       obs.append(kd)
       acc = acc * 31 + jnp.sum(kd)
+    elif k == 'G':
+      _, lift, sub = item
+      helper = (lambda m, sub=sub: run_items(m, sub))
+      a, o = ({'remat': nn.remat}[lift](helper) if lift != 'none' else helper)(mdl)
+      acc = acc * 31 + a
+      obs += list(o)
     elif k == 'E':
       _, cl, name, sub, again, lift = item
       cls = LIFTED[(cl, lift)]
@@ -155,6 +164,8 @@ def obs_kinds(prog_items, out=None):
       out.append('nested')
     elif k == 'K':
       out.append('key')
+    elif k == 'G':
+      obs_kinds(item[2], out)
     elif k == 'E':
       obs_kinds(item[3], out)
       if item[4]:
